@@ -438,6 +438,48 @@ func (w *world) opLose(t *inst, op Op) {
 			return
 		}
 	}
+	// Save, notice missing nodes, sync them, save again (all on private stores): a trie over a store S that lacks the
+	// lost nodes takes an update and is saved into S, then the missing nodes are merged in at the unchanged root
+	// and the trie is saved into S once more; S alone must then hold the complete state.
+	if op.N%4 == 1 && w.v == nil {
+		S := util.NewMemoryNodeDB()
+		for i, n := range nodes {
+			if !lost[i] {
+				S.PutNode(n.key, n.node.CloneNode())
+			}
+		}
+		var r2 util.Key
+		okRun := false
+		w.guard("save / sync / save", func() {
+			T := util.NewMerklePatriciaTrie(util.NewLevelNodeDB(util.NewMemoryNodeDB(), S, false), util.Sequence(rver), root, w.newCache())
+			if _, err := T.Insert(util.Path("0e"), val([]byte("saved-before-sync"))); err != nil {
+				return // the update itself ran into an absent node
+			}
+			r2 = append(util.Key{}, T.GetRoot()...)
+			if err := T.SaveChanges(context.Background(), S, false); err != nil {
+				return
+			}
+			if err := T.MergeDB(donor, r2, nil); err != nil {
+				return
+			}
+			if err := T.SaveChanges(context.Background(), S, false); err != nil {
+				return
+			}
+			okRun = true
+		})
+		if okRun && w.v == nil {
+			w.stats.Inc("probe.saved-synced-saved-again")
+			fr := util.NewMerklePatriciaTrie(S, util.Sequence(rver), r2, w.newCache())
+			var miss bool
+			w.guard("HasMissingNodes on the saved store", func() { miss, _ = fr.HasMissingNodes(context.Background()) })
+			if miss && w.v == nil {
+				w.fail("c17.repair", "synced-nodes-not-saved", "a trie was saved, its missing nodes were merged in at the same root and it was saved again into the same store: the store alone still has missing nodes")
+			}
+		}
+		if w.v != nil {
+			return
+		}
+	}
 	// the original trie object continues
 	t.mpt = check
 }
